@@ -286,6 +286,12 @@ def _k9_scan(R, repo, rels):
         if not isinstance(n.value, (ast.Name, ast.Call)):
           continue
         t = types.infer(repo, f, n.value)
+        if t and t[0] == 'builtin' and t[1] in types.BUILTIN_MEMBERS and isinstance(astu.parent(n), ast.Call) and astu.parent(n).func is n:
+          checked += 1
+          key = key_of(f, '%s.%s' % (astu.short(n.value, 40), n.attr), 'on', t[1])
+          R.check(n.attr in types.BUILTIN_MEMBERS[t[1]] or n.attr.startswith('__'), key, (f, n),
+                  'method `%s` does not exist on builtin %s; receiver `%s`' % (n.attr, t[1], astu.short(n.value, 40)))
+          continue
         if not t or t[0] != 'cls':
           continue
         ci = types.class_info(repo, t[1], t[2])
@@ -302,7 +308,7 @@ def _k9_scan(R, repo, rels):
   return checked
 
 
-@rule('C16.R3', 'K9', 3, 'members used on State/FlatState-typed receivers exist on the class')
+@rule('C16.R3', 'K9', 12, 'members used on State/FlatState-typed receivers exist on the class')
 def r3(R, repo):
   rels = [SL, TR, TU]
   if R.ctx.tier == 'thorough':
